@@ -192,3 +192,39 @@ Qed.
 (* the value one past the last millisecond of the day IS reachable: the last 500 us round up *)
 Theorem day_milliseconds_reaches_next_day : day_milliseconds 23 59 59 999500 = 86400000.
 Proof. reflexivity. Qed.
+
+(* ---------- binary_complement ---------- *)
+Lemma combine_repeat_true (s : list bool) : forall n, (length s <= n)%nat ->
+  map (fun p : bool * bool => if snd p then negb (fst p) else false) (combine s (repeat true n)) = map negb s.
+Proof.
+  induction s as [|b s IH]; intros n Hn; [reflexivity|].
+  destruct n as [|n]; [cbn in Hn; lia|]. cbn [repeat combine map fst snd]. f_equal. apply IH. cbn in Hn. lia.
+Qed.
+
+(* with the default (empty) mask every bit is inverted *)
+Theorem binary_complement_default s : binary_complement s [] = map negb s.
+Proof.
+  unfold binary_complement. cbn [length]. replace (length s <? 0)%nat with false by (symmetry; apply Nat.ltb_ge; lia).
+  rewrite app_nil_r, Nat.sub_0_r. apply combine_repeat_true. lia.
+Qed.
+
+Theorem binary_complement_involutive s : binary_complement (binary_complement s []) [] = s.
+Proof.
+  rewrite !binary_complement_default, map_map. rewrite <- (map_id s) at 2. apply map_ext. intros b. apply negb_involutive.
+Qed.
+
+Theorem binary_complement_length s mask : length (binary_complement s mask) = length s.
+Proof.
+  unfold binary_complement. rewrite map_length, combine_length.
+  destruct (length s <? length mask)%nat eqn:E.
+  - apply Nat.ltb_lt in E. rewrite lastn_length by lia. lia.
+  - apply Nat.ltb_ge in E. rewrite app_length, repeat_length. lia.
+Qed.
+
+(* the value of the complemented string is the one's complement on len(s) bits *)
+Theorem binary_complement_value s : int2 (binary_complement s []) = 2 ^ Z.of_nat (length s) - 1 - int2 s.
+Proof.
+  rewrite binary_complement_default. induction s as [|b s IH]; [reflexivity|].
+  cbn [map]. rewrite !int2_cons, map_length, IH. cbn [length]. rewrite Nat2Z.inj_succ, Z.pow_succ_r by lia.
+  destruct b; cbn [negb b2z]; lia.
+Qed.
